@@ -345,6 +345,52 @@ class Func:
             return a.idx < b.idx
         return a.block.id in self.dominators()[b.block.id]
 
+    def postdominators(self):
+        """block -> set of blocks that post-dominate it (exit included); blocks that cannot reach the exit get {themselves}."""
+        reach = self.reachable()
+        nodes = set(reach)
+        pd = {b: set(nodes) for b in nodes}
+        pd[self.exit] = {self.exit}
+        changed = True
+        while changed:
+            changed = False
+            for b in nodes:
+                if b == self.exit:
+                    continue
+                ss = [s for s in self.blocks[b].succs if s is not None and s in nodes]
+                new = set.intersection(*(pd[s] for s in ss)) if ss else set()
+                new = new | {b}
+                if new != pd[b]:
+                    pd[b] = new
+                    changed = True
+        return pd
+
+    def control_deps(self, transitive=True):
+        """block -> set of branch blocks it is (transitively) control dependent on (Ferrante et al.: X is control
+        dependent on A iff X post-dominates some successor of A but does not strictly post-dominate A)."""
+        pd = self.postdominators()
+        cd = {b: set() for b in pd}
+        for a in pd:
+            ss = [s for s in self.blocks[a].succs if s is not None and s in pd]
+            if len(ss) < 2:
+                continue
+            for s in ss:
+                for x in pd[s]:
+                    if x == a or x not in pd[a]:
+                        cd[x].add(a)
+        if transitive:
+            changed = True
+            while changed:
+                changed = False
+                for x in cd:
+                    add = set()
+                    for a in cd[x]:
+                        add |= cd.get(a, set())
+                    if not add <= cd[x]:
+                        cd[x] |= add
+                        changed = True
+        return cd
+
     def back_edges(self):
         dom = self.dominators()
         out = set()
